@@ -4,7 +4,7 @@ from __future__ import annotations
 from fractions import Fraction as Fr
 
 from hypothesis import strategies as st
-from hypothesis import target
+from ..core.sut import hyp_target as target
 
 from ..core.sut import call_sut
 from ..core.types import Outcome, Part
